@@ -80,7 +80,65 @@ pub fn run_u8(kind: &str, n: usize) -> Outcome {
     }
 }
 
+/// state-count boundary: `S: 't0' | ... | 't{n-1}'` has n + 2 states (start, accept-side state, one per token)
+pub fn run_u8_table(kind: &str, n: usize) -> Outcome {
+    use lrtable::{from_yacc, Minimiser};
+    let src = match kind { "states_chain" => one_prod_rules(n), _ => many_tokens(n) };
+    let yk = YaccKind::Original(YaccOriginalActionKind::NoAction);
+    let g32 = YaccGrammar::<u32>::new_with_storaget(yk, &src).expect("u32 grammar");
+    let (sg32, st32) = from_yacc(&g32, Minimiser::Pager).expect("u32 table");
+    let ns = usize::from(sg32.all_states_len());
+    let expected = format!("{} states and the same cells as with u32, or the documented 'not big enough' refusal", ns);
+    let r = catch_unwind(AssertUnwindSafe(|| {
+        let g = YaccGrammar::<u8>::new_with_storaget(yk, &src).expect("u8 grammar");
+        let (sg, st) = from_yacc(&g, Minimiser::Pager).expect("u8 table");
+        // state numbers depend on hash-map iteration order (C15 territory): rows are compared with the
+        // state targets erased, as multisets
+        let mut same = usize::from(sg.all_states_len()) == ns;
+        if same {
+            let erase = |a: String| if a.starts_with("Shift") { "Shift".to_string() } else { a };
+            let mut rows8: Vec<Vec<String>> = Vec::new();
+            let mut rows32: Vec<Vec<String>> = Vec::new();
+            for s in 0..ns {
+                let mut r8 = Vec::new();
+                let mut r32 = Vec::new();
+                for t in 0..usize::from(g.tokens_len()) {
+                    r8.push(erase(format!("{:?}", st.action(lrtable::StIdx(s as u8), cfgrammar::TIdx(t as u8)))));
+                    r32.push(erase(format!("{:?}", st32.action(lrtable::StIdx(s as u32), cfgrammar::TIdx(t as u32)))));
+                }
+                for r in 0..usize::from(g.rules_len()) {
+                    r8.push(format!("{}", st.goto(lrtable::StIdx(s as u8), cfgrammar::RIdx(r as u8)).is_some()));
+                    r32.push(format!("{}", st32.goto(lrtable::StIdx(s as u32), cfgrammar::RIdx(r as u32)).is_some()));
+                }
+                rows8.push(r8);
+                rows32.push(r32);
+            }
+            rows8.sort();
+            rows32.sort();
+            same = rows8 == rows32;
+        }
+        (usize::from(sg.all_states_len()), same)
+    }));
+    match r {
+        Err(e) => {
+            let msg = e.downcast_ref::<String>().cloned().or_else(|| e.downcast_ref::<&str>().map(|s| s.to_string())).unwrap_or_default();
+            let documented = msg.contains("StorageT is not big enough");
+            Outcome { fails: !documented, observed: format!("panic: {}", msg), expected }
+        }
+        Ok((n8, same)) => Outcome { fails: n8 != ns || !same, observed: format!("{} states, cells {}", n8, if same { "agree" } else { "differ" }), expected },
+    }
+}
+
 pub fn search(tag: &str, _tier: &str) -> Option<Value> {
+    if tag.contains("state") || tag.contains("table") {
+        for kind in ["states", "states_chain"] {
+            for n in 200..=256usize {
+                let o = run_u8_table(kind, n);
+                if o.fails { return Some(witness("c20_u8_table", json!({"kind": kind, "n": n, "storage": "u8"}), &o)); }
+            }
+        }
+        return None;
+    }
     let order: [&str; 5] = if tag.contains("token") { ["tokens1", "tokens", "rules", "prods", "eco"] } else if tag.contains("production") || tag.contains("prods") { ["prods", "eco", "rules", "tokens", "tokens1"] } else { ["rules", "prods", "tokens", "tokens1", "eco"] };
     for kind in order {
         for n in 120..=258usize {
